@@ -25,8 +25,8 @@ type Query struct {
 type LCase struct {
 	In      []byte  `json:"in"`
 	Def     DefSpec `json:"def"`
-	Mode    int     `json:"mode"`  // 0 safe, 1 fast
-	Entry   int     `json:"entry"` // 0 = Decode() function (safe only), 1 = NewDecoder().Decode, 2 = used Decoder (see Warm)
+	Mode    int     `json:"mode"`              // 0 safe, 1 fast
+	Entry   int     `json:"entry"`             // 0 = Decode() function (safe only), 1 = NewDecoder().Decode, 2 = used Decoder (see Warm)
 	MaxBuf  int     `json:"max_buf,omitempty"` // entry 2: WithMaxBufferSize(MaxBuf)
 	Warm    []byte  `json:"warm,omitempty"`    // entry 2: decoded, queried and closed on the same Decoder before In
 	Queries []Query `json:"queries"`
